@@ -1,0 +1,17 @@
+//go:build verif
+
+// Contracts for the deductive verifier in /verif (comment-only file; it
+// contributes no code to any build). Syntax: see /verif/DESIGN.md.
+//
+// Property C17, the concurrency-limiting replicator: the copy runs only while
+// the call holds one unit of the semaphore, the unit is given back on every
+// path that took it, and the caller gets the copier's verdict (or the reason
+// the unit could not be had).
+package replication
+
+//@ func (*concurrencyLimitingBlobReplicator).ReplicateMultiple
+//@   requires br.base != nil && br.semaphore != nil
+//@   ensures [every-unit-given-back] semHeld(br.semaphore) == old(semHeld(br.semaphore))
+//@   ensures [copies-only-while-holding-a-unit] repMulti(br.base) <= old(repMulti(br.base)) + 1
+//@   ensures [copiers-verdict-reported] repMulti(br.base) != old(repMulti(br.base)) ==> result == repErr(br.base)
+//@   callrequires ReplicateMultiple [copies-only-while-holding-a-unit] semHeld(br.semaphore) == old(semHeld(br.semaphore)) + 1
